@@ -227,11 +227,19 @@ def run_kani(snapshot: str, harnesses: list[Harness], jobs: int, log_dir: str, e
             resource.setrlimit(resource.RLIMIT_STACK, (resource.RLIM_INFINITY, resource.RLIM_INFINITY))
         except Exception:
             pass
-    try:
-        p = subprocess.run(cmd, cwd=snapshot, capture_output=True, text=True, env=env, timeout=total_to, preexec_fn=_big_stack)
-        out = p.stdout + "\n" + p.stderr
-    except subprocess.TimeoutExpired as e:
-        out = (e.stdout or b"").decode(errors="replace") + "\n" + (e.stderr or b"").decode(errors="replace") + "\nVERIF: global timeout"
+    # Checks that run at the same time share one cargo target directory (dependency cache): two cargo-kani builds in it clobber
+    # each other's artefacts ("error" results, seen when two suites ran concurrently). Serialise the Kani phase across processes.
+    import fcntl
+    with open(os.path.join(VERIF, ".cache", "kani.lock"), "w") as lk:
+        fcntl.flock(lk, fcntl.LOCK_EX)
+        t0 = time.time()
+        try:
+            p = subprocess.run(cmd, cwd=snapshot, capture_output=True, text=True, env=env, timeout=total_to, preexec_fn=_big_stack)
+            out = p.stdout + "\n" + p.stderr
+        except subprocess.TimeoutExpired as e:
+            out = (e.stdout or b"").decode(errors="replace") + "\n" + (e.stderr or b"").decode(errors="replace") + "\nVERIF: global timeout"
+        finally:
+            fcntl.flock(lk, fcntl.LOCK_UN)
     wall = time.time() - t0
     open(os.path.join(log_dir, f"kani-output{tag}.txt"), "w").write(" ".join(shlex.quote(c) for c in cmd) + "\n\n" + out)
     results = parse_kani_output(out, harnesses)
